@@ -156,6 +156,34 @@ def word_attempts(eff, w):
     return att, extra
 
 
+def text_pieces(term):
+    """the values a string-valued term is put together from, in order, when it is a recognisable concatenation: `format!` with display
+    arguments only (the literal parts of the template are not visible in the exported constant and are not checked), `[a, b, c].concat()`,
+    `[a, b, c].join("")`; None otherwise"""
+    t = term
+    while t[0] == 'app' and len(t[2]) == 1 and t[1].split('::')[-1].split('<')[0] in ('must_use', 'to_string', 'to_owned', 'into', 'from', 'clone', 'as_str', 'as_ref', 'deref', 'borrow'):
+        t = t[2][0]
+    if t[0] != 'app':
+        return None
+    last = t[1].split('::')[-1].split('<')[0]
+    if last == 'format' and len(t[2]) == 1 and t[2][0][0] == 'app' and 'Arguments' in t[2][0][1] and len(t[2][0][2]) == 2 and t[2][0][2][1][0] == 'tuple':
+        out = []
+        import re
+        m = re.search(r'::<(\d+),(\d+)>$', t[2][0][1])
+        if m is None or int(m.group(1)) != int(m.group(2)) + 1:
+            return 'literal-template'   # the template has literal text between the placeholders (or its size is not known): not a plain concatenation
+        for a in t[2][0][2][1][1]:
+            if not (a[0] == 'app' and a[1].split('::')[-1] == 'new_display' and len(a[2]) == 1):
+                return None
+            out.append(a[2][0])
+        return out
+    if last == 'concat' and len(t[2]) == 1 and t[2][0][0] == 'tuple':
+        return list(t[2][0][1])
+    if last == 'join' and len(t[2]) == 2 and t[2][0][0] == 'tuple' and t[2][1] == C(''):
+        return list(t[2][0][1])
+    return None
+
+
 def _mentions(v, w):
     from absint import has_subterm
     return has_subterm(v, w)
@@ -243,6 +271,27 @@ def check_words(ctx, prog):
                 good = pv is not None and pv[0] == 'proj' and pv[1] == t_ and pv[2] == ('as Ok', '0')
                 if first_succ == 'join':
                     good = good and _mentions(t_, w) and (_mentions(t_, x) or not must_join)
+            # the text a join attempt parses is the word, the sign as it is written, and the following partial token, in that order
+            for k_, _s, t_ in att:
+                if k_ != 'join' or not joinable or not t_[2]:
+                    continue
+                pieces = text_pieces(t_[2][0])
+                if pieces == 'literal-template':
+                    note('payload', '%s: the join is formatted with a template that adds text of its own' % sname)
+                    continue
+                if pieces is None or len(pieces) != 3:
+                    continue
+
+                def text(v):
+                    v = _bare(v)
+                    if v[0] == 'adt' and v[1].endswith('PartialToken'):
+                        if v[3] == 'Literal' and v[4]:
+                            return _bare(v[4][0])
+                        return C(ts.psym.get(v[3]))
+                    return v
+                want_pieces = [w, C(ts.psym.get(S[0][3])), text(S[1])]
+                if [text(p_) for p_ in pieces] != want_pieces:
+                    note('payload', '%s: the join parses %s, expected the word, `%s` and the next partial token' % (sname, [fmt(text(p_))[:30] for p_ in pieces], ts.psym.get(S[0][3])))
             if not good:
                 note('payload', '%s: %s carries %s' % (sname, kind, fmt(pv)[:80] if pv else None))
     ctx.counters['tokenizer_paths'] = n_paths
